@@ -522,6 +522,27 @@ class CallMixin:
             if q is not None and q in self.reg.contracts:
                 args, kwargs = self.eval_args(node, st)
                 return self.apply_contract(self.reg.contracts[q], [base] + args, kwargs, st, node, label=q)
+            if base.py in ("set", "frozenset") and meth == "union" and len(node.args) == 1 and isinstance(node.args[0], ast.Starred) and not node.keywords:
+                rows = self.materialise(self.eval(node.args[0].value, st), st, node)
+                S = rows.t
+                self.may_raise(st, Q.Length(S) == 0, "TypeError", f"set.union() without arguments line {node.lineno}")
+                r = self.fresh_term(st, "setunionall", SeqV)
+                x, i = fresh("ix", V), fresh("ii", IntS)
+                elems = uf("setelems", V, SeqV)
+                st.assume(z3.ForAll([x], seq_contains(r, x) == z3.Exists([i], z3.And(0 <= i, i < Q.Length(S), seq_contains(elems(Q.At(S, i)), x)))))
+                self._assume_distinct(st, r)
+                return Sym("set", r, Spec("set", VAL))
+            if base.py in ("set", "frozenset") and meth == "intersection" and len(node.args) == 1 and isinstance(node.args[0], ast.Starred) and not node.keywords:
+                # set.intersection(*sets): members of every set (TypeError for no argument at all)
+                rows = self.materialise(self.eval(node.args[0].value, st), st, node)
+                S = rows.t
+                self.may_raise(st, Q.Length(S) == 0, "TypeError", f"set.intersection() without arguments line {node.lineno}")
+                r = self.fresh_term(st, "setinterall", SeqV)
+                x, i = fresh("ix", V), fresh("ii", IntS)
+                elems = uf("setelems", V, SeqV)
+                st.assume(z3.ForAll([x], seq_contains(r, x) == z3.ForAll([i], z3.Implies(z3.And(0 <= i, i < Q.Length(S)), seq_contains(elems(Q.At(S, i)), x)))))
+                self._assume_distinct(st, r)
+                return Sym("set", r, Spec("set", VAL))
             if base.py in ("dict", "OrderedDict") and meth == "fromkeys":
                 s = self.materialise(self.eval(node.args[0], st), st, node)
                 return self.dedup_dict(s, st)
@@ -706,6 +727,10 @@ class CallMixin:
                 st.heap[(owner.t.get_id(), recv_node.attr)] = new
                 st.notes.setdefault("heap_terms", {})[(owner.t.get_id(), recv_node.attr)] = owner.t
                 return
+        if isinstance(recv_node, ast.Subscript) and not isinstance(recv_node.slice, ast.Slice):
+            # d[k].append(x) / d[k].add(x): the mutated element is stored back into its container
+            self.assign(recv_node, new, st)
+            return
         txt = ast.unparse(recv_node)
         if any(txt.startswith(u) for u in self.contract.unmodelled):
             self.collector.assumptions.add(f"{self.kernel.qualname}: mutation of {txt} is outside the modelled state")
@@ -740,6 +765,16 @@ class CallMixin:
                 return S_none()
             if meth == "update":
                 self.store_back(recv_node, self.set_union(base, args[0], st), st)
+                return S_none()
+            if meth in ("discard", "remove"):
+                xb = box(args[0], st)
+                if meth == "remove":
+                    self.may_raise(st, z3.Not(seq_contains(base.t, xb, st)), "KeyError", f"set.remove line {node.lineno}")
+                r = self.fresh_term(st, "setdel", SeqV)
+                x = fresh("sx", V)
+                st.assume(z3.ForAll([x], seq_contains(r, x) == z3.And(seq_contains(base.t, x), x != xb)))
+                self._assume_distinct(st, r)
+                self.store_back(recv_node, Sym("set", r, base.spec), st)
                 return S_none()
             raise Unsupported(f"set.{meth}")
         if base.kind == "dict":
